@@ -51,6 +51,8 @@ pub struct World<T: HashAlgorithm> {
     pub probe_keys: Vec<Key>,
     pub root_ids: HashMap<[u8; 32], u64>,
     pub decode: bool,
+    /// omit page lists from the decoder observation (crash images: thousands per run)
+    pub decode_lite: bool,
 }
 
 pub fn classify_err(e: &anyhow::Error) -> String {
@@ -106,6 +108,7 @@ impl<T: HashAlgorithm> World<T> {
             probe_keys,
             root_ids: HashMap::new(),
             decode: false,
+            decode_lite: false,
         };
         w.open()?;
         Ok(w)
@@ -222,7 +225,7 @@ impl<T: HashAlgorithm> World<T> {
         let leak = d.problems.iter().any(|p| p.contains("leak"));
         let other: Vec<&String> = d.problems.iter().filter(|p| !p.contains("leak")).collect();
         let alloc = |a: &crate::decode::FileAlloc| {
-            if a.bump <= 400 {
+            if a.bump <= 400 && !self.decode_lite {
                 json!({"bump": a.bump, "free": a.free, "fl": a.fl_pages, "live": a.live})
             } else {
                 json!({"bump": a.bump, "nfree": a.free.len(), "nfl": a.fl_pages.len(), "nlive": a.live.len()})
